@@ -229,6 +229,10 @@ bool provider(const std::string &prop, const std::string &tier, const std::strin
         { Spec s; s.check = false; s.initial = {0}; s.threads = T{{N(2)}, {H(2)}, {E(1), D()}}; add(suite, s, b, flavour); }
         { Spec s; s.check = false; s.initial = {0, 1}; s.threads = T{{U(1), H(2)}, {N(1), D()}}; add(suite, s, b, flavour); }
         { Spec s; s.check = false; s.initial = {0}; s.dead = {1, 2}; s.threads = T{{N(1)}, {H(2)}, {E(4)}}; add(suite, s, b, flavour); }
+        // several subscriptions on ONE key share one Subject: concurrent subscribe/unsubscribe/notify meet in its id set and observer list
+        { Spec s; s.check = false; s.initial = {0, 0, 0}; s.threads = T{{U(0)}, {U(1)}, {S(0)}}; add(suite, s, b, flavour); }
+        { Spec s; s.check = false; s.initial = {0, 0, 0}; s.threads = T{{U(1)}, {U(0)}, {N(0)}}; add(suite, s, b, flavour); }
+        { Spec s; s.check = false; s.initial = {0, 0}; s.threads = T{{S(0), U(0)}, {U(1), S(0)}}; add(suite, s, b, flavour); }
         return true;
     }
     suite.rule = "every schedule with at most c preemptions of 3-4 threads calling one or two operations each on one ConcurrentSubjectRouter (colliding on the same keys), c = 0..bound; "
